@@ -1,7 +1,9 @@
 (** C14 property theorems: for every SEND_LIMIT / bufferSize and every history of write, writeSequence,
     registerProducer (scripted push or pull producer), unregisterProducer, loseConnection,
     loseWriteConnection, doWrite with an adversarial accepted count or an OS error, and outside loss.
-    [log] is newest first; [written]/[gtold]/[gwrote] are ghost fields defined in Model.v. *)
+    [log] is newest first; [written]/[gtold]/[gwrote] are ghost fields defined in Model.v.
+    [pre] = the transport starts as a client transport whose connection is not yet established (connected = 0,
+    disconnected = 0) and is connected later by a [Connect] op; otherwise it starts connected. *)
 From Coq Require Import List Arith Bool NArith.
 From C14 Require Import Model Proofs.
 Import ListNotations.
@@ -9,14 +11,14 @@ Import ListNotations.
 (** the bytes accepted by write()/writeSequence() are exactly: what the OS accepted so far (concatenation of the
     accepted prefixes of every writeSomeData call, in call order), then dataBuffer[offset:], then the temporary
     buffer -- nothing lost, duplicated or reordered *)
-Theorem buffer_represents_unsent : forall slimit bsize ops,
-  let s := run slimit bsize ops in
+Theorem buffer_represents_unsent : forall slimit bsize pre ops,
+  let s := run slimit bsize pre ops in
   written s = os_bytes (rev (log s)) ++ skipn (off s) (dbuf s) ++ concat (temp s).
 Proof. exact reach_buffer. Qed.
 Print Assumptions buffer_represents_unsent.
 
-Theorem os_bytes_are_prefix_of_written : forall slimit bsize ops,
-  let s := run slimit bsize ops in exists rest, written s = os_bytes (rev (log s)) ++ rest.
+Theorem os_bytes_are_prefix_of_written : forall slimit bsize pre ops,
+  let s := run slimit bsize pre ops in exists rest, written s = os_bytes (rev (log s)) ++ rest.
 Proof. exact reach_prefix. Qed.
 Print Assumptions os_bytes_are_prefix_of_written.
 
@@ -24,23 +26,23 @@ Print Assumptions os_bytes_are_prefix_of_written.
     side was shut down), everything accepted so far has been handed to the OS; and if a pull producer is still
     registered at that moment, the write side had already been shut down (no byte of it could be accepted) *)
 Theorem os_bytes_equal_written_at_close_and_no_close_while_pull_producer_registered :
-  forall slimit bsize ops clean pull wd wr se,
-  In (ELost clean pull wd wr se) (log (run slimit bsize ops)) -> clean = true ->
+  forall slimit bsize pre ops clean pull wd wr se,
+  In (ELost clean pull wd wr se) (log (run slimit bsize pre ops)) -> clean = true ->
   wr = se /\ (pull = true -> wd = true).
 Proof. exact reach_close. Qed.
 Print Assumptions os_bytes_equal_written_at_close_and_no_close_while_pull_producer_registered.
 
 (** the write side is shut down (_closeWriteConnection) only after the flush and never while a pull producer
     is registered *)
-Theorem half_close_only_after_flush : forall slimit bsize ops pull wr se,
-  In (ECloseWrite pull wr se) (log (run slimit bsize ops)) -> wr = se /\ pull = false.
+Theorem half_close_only_after_flush : forall slimit bsize pre ops pull wr se,
+  In (ECloseWrite pull wr se) (log (run slimit bsize pre ops)) -> wr = se /\ pull = false.
 Proof. exact reach_halfclose. Qed.
 Print Assumptions half_close_only_after_flush.
 
 (** a registered streaming producer that has written since it registered has been told to pause (the last call
     made on it is pauseProducing) whenever more than bufferSize bytes are waiting *)
-Theorem streaming_producer_paused_when_over_bufferSize : forall slimit bsize ops,
-  let s := run slimit bsize ops in
+Theorem streaming_producer_paused_when_over_bufferSize : forall slimit bsize pre ops,
+  let s := run slimit bsize pre ops in
   is_streaming s = true -> gwrote s = true -> bsize < length (unsent s) -> gtold s = true.
 Proof. exact reach_paused_over. Qed.
 Print Assumptions streaming_producer_paused_when_over_bufferSize.
@@ -57,8 +59,8 @@ Print Assumptions pause_exactly_when_measure_over_bufferSize.
     waiting, the transport is connected and registered for writing and producerPaused is set -- so the drain
     (doWrite's resume branch) has not happened yet, and when it happens the ghost can only be cleared by the
     resumeProducing call (Model.resume), unregisterProducer or connectionLost *)
-Theorem paused_streaming_producer_resumed_on_drain : forall slimit bsize ops,
-  let s := run slimit bsize ops in
+Theorem paused_streaming_producer_resumed_on_drain : forall slimit bsize pre ops,
+  let s := run slimit bsize pre ops in
   gtold s = true ->
   is_streaming s = true /\ ppaused s = true /\ unsent s <> [] /\ connected s = true /\ writing s = true.
 Proof. exact reach_paused_pending. Qed.
@@ -66,10 +68,18 @@ Print Assumptions paused_streaming_producer_resumed_on_drain.
 
 (** nothing is forgotten: while connected, waiting bytes keep the descriptor registered for writing, and so does a
     pending loseConnection once no producer is registered *)
-Theorem pending_data_and_pending_close_keep_writer_registered : forall slimit bsize ops,
-  let s := run slimit bsize ops in
+Theorem pending_data_and_pending_close_keep_writer_registered : forall slimit bsize pre ops,
+  let s := run slimit bsize pre ops in
   connected s = true ->
   (unsent s <> [] -> writing s = true) /\
   (disconnecting s = true -> producer s = None -> writing s = true).
 Proof. exact reach_no_stall. Qed.
 Print Assumptions pending_data_and_pending_close_keep_writer_registered.
+
+(** "written while connected": a transport that has never been connected (connected = 0, disconnected = 0) has accepted
+    nothing -- no byte written before the connection is established is buffered or reaches the OS *)
+Theorem nothing_accepted_before_connect : forall slimit bsize pre ops,
+  let s := run slimit bsize pre ops in
+  connected s = false -> disconnected s = false -> written s = [] /\ sent s = [] /\ unsent s = [].
+Proof. exact reach_pre. Qed.
+Print Assumptions nothing_accepted_before_connect.
